@@ -4,6 +4,7 @@ package eni
 
 import (
 	"context"
+	"encoding/json"
 
 	corev1 "k8s.io/api/core/v1"
 	metav1 "k8s.io/apimachinery/pkg/apis/meta/v1"
@@ -110,3 +111,54 @@ func ZZ_C19_node_cr_flavor() {
 	}
 	zz.Reach("published")
 }
+
+// C19 across an instance-type change: the Node CR as stored in the API server
+// (what the controllers read to advertise capacity and to plan interfaces)
+// follows the current limits.  First reconcile with the limits of the old
+// type, then the controller rewrites spec.nodeCap for a smaller type and the
+// daemon reconciles again with an unchanged configuration: the stored flavor
+// must fit the new limits.  The "did anything change" comparison is modelled
+// faithfully: the unstructured form of an object is a function of its content.
+// zz:noreplay the cluster eni-config, node capabilities and the unstructured converter are summarised through engine-side overrides
+func ZZ_C19_node_cr_resize() {
+	cfg := &daemon.Config{IPStack: "ipv4", EnableENITrunking: zz.Bool("cfg.trunk"), VSwitches: map[string][]string{"z1": {"vsw-1"}}, SecurityGroups: []string{"sg-1"}, MaxPoolSize: 5, MinPoolSize: 1}
+	zz.Override("github.com/AliyunContainerService/terway/types/daemon.ConfigFromConfigMap", func(ctx context.Context, c client.Client, nodeName string) (*daemon.Config, error) {
+		return cfg, nil
+	})
+	zz.Override("github.com/AliyunContainerService/terway/pkg/utils/nodecap.GetNodeCapabilities", func(name string) string { return "" })
+	zz.Override("(*k8s.io/apimachinery/pkg/runtime.unstructuredConverter).ToUnstructured", func(c any, obj interface{}) (map[string]interface{}, error) {
+		b, err := jsonMarshalForZZ(obj)
+		return map[string]interface{}{"content": string(b)}, err
+	})
+	big := networkv1beta1.NodeCap{Adapters: zz.IntRange("old.adapters", 2, 8), IPv4PerAdapter: 10, MemberAdapterLimit: zz.IntRange("old.memberAdapterLimit", 0, 4)}
+	small := networkv1beta1.NodeCap{Adapters: zz.IntRange("new.adapters", 1, 8), IPv4PerAdapter: 10, MemberAdapterLimit: zz.IntRange("new.memberAdapterLimit", 0, 4)}
+	node := &networkv1beta1.Node{ObjectMeta: metav1.ObjectMeta{Name: "n1", Labels: map[string]string{}}}
+	node.Spec.NodeCap = big
+	node.Spec.NodeMetadata.ZoneID = "z1"
+	cl := &zzNodeClient{node: node, k8sNode: &corev1.Node{ObjectMeta: metav1.ObjectMeta{Name: "n1"}}}
+	r := &nodeReconcile{client: cl}
+	_, err := r.Reconcile(context.Background(), reconcile.Request{NamespacedName: k8stypes.NamespacedName{Name: "n1"}})
+	zz.Assert(err == nil && cl.updated != nil, "the first reconcile publishes the configuration")
+	if cl.updated == nil {
+		return
+	}
+	// the API server now holds what was published; the controller then rewrites the capabilities
+	stored := cl.updated.DeepCopy()
+	stored.Spec.NodeCap = small
+	cl.node, cl.updated = stored, nil
+	_, err = r.Reconcile(context.Background(), reconcile.Request{NamespacedName: k8stypes.NamespacedName{Name: "n1"}})
+	zz.Assert(err == nil, "the second reconcile succeeds")
+	final := stored
+	if cl.updated != nil {
+		final = cl.updated
+		zz.Reach("second reconcile wrote")
+	}
+	total := 0
+	for _, f := range final.Spec.Flavor {
+		total += f.Count
+	}
+	zz.Assert(total <= max(small.Adapters-1, 0), "after the instance type changed the stored interface slots fit the attachable secondary interfaces of the new type")
+	zz.Assert(zz.Implies(final.Spec.ENISpec != nil && final.Spec.ENISpec.EnableTrunk, small.MemberAdapterLimit > 0), "trunking is only advertised when the new type supports it")
+}
+
+func jsonMarshalForZZ(v any) ([]byte, error) { return json.Marshal(v) }
